@@ -3,11 +3,17 @@
 package c03
 
 import (
+	"container/list"
 	"errors"
 	"fmt"
+	"math/big"
+	"time"
+
+	"github.com/google/uuid"
 	"reflect"
 	"strings"
 	"testing"
+	"verif/internal/gentypes"
 
 	hio "github.com/hprose/hprose-golang/v3/io"
 	"verif/internal/corpus"
@@ -48,6 +54,7 @@ func TestCheck(t *testing.T) {
 	}
 	// error values and values only reachable through Encoder methods
 	r.Case("errors-and-specials", func(c *h.Case) { specials(c) })
+	r.Case("pair-matrix", func(c *h.Case) { pairMatrix(c) })
 }
 
 func checkValue(c *h.Case, ue corpus.Entry, j int, v reflect.Value) {
@@ -98,7 +105,8 @@ func checkSequence(c *h.Case, ue corpus.Entry, vals []reflect.Value) {
 	}
 	rng := c.Rand()
 	for _, simple := range []bool{true, false} {
-		for _, useWrite := range []bool{false, true} {
+		for _, wmode := range []int{0, 1, 2, 2} { // all Encode, all Write, mixed per value (twice)
+			useWrite := wmode == 1
 			k := 2 + rng.Intn(4)
 			enc := new(hio.Encoder).Simple(simple)
 			var want []*eqv.D
@@ -111,6 +119,9 @@ func checkSequence(c *h.Case, ue corpus.Entry, vals []reflect.Value) {
 				}
 				picked = append(picked, v)
 				var err error
+				if wmode == 2 {
+					useWrite = rng.Intn(2) == 0
+				}
 				p, st := h.Try(func() {
 					if useWrite {
 						err = enc.Write(corpus.Iface(v))
@@ -136,12 +147,12 @@ func checkSequence(c *h.Case, ue corpus.Entry, vals []reflect.Value) {
 			data := enc.Bytes()
 			got, _, perr := hpref.ParseAll(data, k)
 			if perr != nil {
-				c.Violation("malformed-seq:"+errClass(perr)+":"+typeClass(ue.T), fmt.Sprintf("sequence of %d values does not parse as %d values: %v\nbytes=%s", k, k, perr, h.Hex(clipb(data, 800))), map[string]interface{}{"type": ue.T.String(), "simple": simple, "write": useWrite, "bytes": h.Hex(clipb(data, 800))})
+				c.Violation("malformed-seq:"+errClass(perr)+":"+typeClass(ue.T), fmt.Sprintf("sequence of %d values does not parse as %d values: %v\nbytes=%s", k, k, perr, h.Hex(clipb(data, 800))), map[string]interface{}{"type": ue.T.String(), "simple": simple, "write_mode": wmode, "bytes": h.Hex(clipb(data, 800))})
 				continue
 			}
 			for i := range want {
 				if why := eqv.DEqual(want[i], got[i]); why != "" {
-					c.Violation("denotation-seq:"+typeClass(ue.T), fmt.Sprintf("value %d of a sequence denotes another value: %s\nbytes=%s", i, why, h.Hex(clipb(data, 800))), map[string]interface{}{"type": ue.T.String(), "simple": simple, "write": useWrite, "bytes": h.Hex(clipb(data, 800))})
+					c.Violation("denotation-seq:"+typeClass(ue.T), fmt.Sprintf("value %d of a sequence denotes another value: %s\nbytes=%s", i, why, h.Hex(clipb(data, 800))), map[string]interface{}{"type": ue.T.String(), "simple": simple, "write_mode": wmode, "bytes": h.Hex(clipb(data, 800))})
 					break
 				}
 			}
@@ -200,6 +211,73 @@ func specials(c *h.Case) {
 					}
 				}
 				c.R.Distinct(fmt.Sprintf("error|%d|%v|%T", i, simple, ev))
+			}
+		}
+	}
+}
+
+// pairMatrix: for every ordered pair (x, y) of a pool of values of every referable and
+// non-referable kind and every assignment of Write/Encode to the three positions, the
+// sequence x, y, y is written to one encoder: the third item must resolve to y, whatever x
+// did to the reference count.
+func pairMatrix(c *h.Case) {
+	one := 5
+	tm := time.Date(2021, 3, 4, 5, 6, 7, 0, time.UTC)
+	u := uuid.MustParse("550e8400-e29b-41d4-a716-446655440000")
+	l := list.New()
+	l.PushBack("le")
+	pool := []interface{}{
+		"", "a", "中", "😀", "ab", "long string", "\xff\xfe", []byte{}, []byte("b"), []byte(nil),
+		0, 12345, 1.5, true, nil, big.NewInt(7), big.NewRat(1, 3), big.NewRat(2, 1), complex(1, 2), complex(3, 0),
+		tm, &tm, u, &u, l, []int{1}, []int{}, []string{"ab", "ab"}, [][]int{{1}, nil}, [2]string{"ab", "cd"}, &[1]int{1},
+		map[string]int{"k": 1}, map[string]int{}, &gentypes.One{A: 1}, gentypes.One{A: 2}, &gentypes.Scalars{S: "ab"}, &gentypes.Empty{},
+		struct{ S string }{"ab"}, &struct{ A, B int }{1, 2}, &one, errors.New("err"),
+	}
+	for xi, x := range pool {
+		for yi, y := range pool {
+			for w := 0; w < 8; w++ {
+				enc := new(hio.Encoder).Simple(false)
+				items := []interface{}{x, y, y}
+				failed := false
+				p, _ := h.Try(func() {
+					for k, it := range items {
+						var err error
+						if w&(1<<uint(k)) != 0 {
+							err = enc.Write(it)
+						} else {
+							err = enc.Encode(it)
+						}
+						if err != nil {
+							failed = true
+						}
+					}
+				})
+				c.R.Eval(1)
+				if p != nil {
+					c.Violation("pair-matrix-panic:"+h.PanicClass(fmt.Sprint(p)), fmt.Sprintf("x=%#v y=%#v w=%03b: %v", x, y, w, p), nil)
+					continue
+				}
+				if failed {
+					continue
+				}
+				data := enc.Bytes()
+				got, _, err := hpref.ParseAll(data, 3)
+				rep := map[string]interface{}{"x": fmt.Sprintf("%#v", x), "y": fmt.Sprintf("%#v", y), "write_mask": w, "bytes": h.Hex(clipb(data, 400))}
+				if err != nil {
+					c.Violation(fmt.Sprintf("pair-matrix-malformed:%T-then-%T", x, y), fmt.Sprintf("x=%#v y=%#v write-mask=%03b: %v\nbytes=%s", x, y, w, err, h.Hex(clipb(data, 400))), rep)
+					continue
+				}
+				for k, it := range items {
+					want := eqv.Denote(it)
+					if e, ok := it.(error); ok {
+						want = &eqv.D{K: eqv.KObj, Class: "!error", Field: []string{"message"}, Vals: []*eqv.D{eqv.StrD(e.Error())}}
+					}
+					if why := eqv.DEqual(want, got[k]); why != "" {
+						c.Violation(fmt.Sprintf("pair-matrix-denotation:%T-then-%T", x, y), fmt.Sprintf("item %d of x=%#v y=%#v write-mask=%03b denotes another value: %s\nbytes=%s", k, x, y, w, why, h.Hex(clipb(data, 400))), rep)
+						break
+					}
+				}
+				c.R.Distinct(fmt.Sprintf("pair|%d|%d|%d", xi, yi, w))
 			}
 		}
 	}
